@@ -55,6 +55,11 @@ Print Assumptions C20_chain_separated.
 Theorem C20_cycle_no_order : forall d fields a, NoDup fields -> reaches d fields a a -> rand_order d fields = None.
 Proof. exact rand_order_cycle_none. Qed.
 Print Assumptions C20_cycle_no_order.
+(* only the fields named by a declaration that reaches the rand set are grouped (the others are not swizzled in the ordered branch) *)
+Theorem C20_only_named_grouped : forall d fields gs x,
+  rand_order d fields = Some gs -> In x (concat gs) -> In x (items (filter (fun p => mem (fst p) fields) d)).
+Proof. exact rand_order_only_named. Qed.
+Print Assumptions C20_only_named_grouped.
 
 Open Scope Z_scope.
 (* the first-solved field: when the drawn pattern is a feasible value v of its range, every slice is kept (it is consistent with
